@@ -163,6 +163,7 @@ type Exec struct {
 	cloVerified   map[*ast.FuncLit]bool
 	pureDepth     int
 	reassigned    map[types.Object]bool
+	freshPtrVars  map[*types.Var]bool
 }
 
 func newExec(ld *Loader, cs *Contracts, pkg *packages.Package) *Exec {
@@ -173,7 +174,7 @@ func newExec(ld *Loader, cs *Contracts, pkg *packages.Package) *Exec {
 		heapComps: map[string]*Sort{}, structSorts: map[string]*Sort{}, typeTags: map[string]int{}, maxPaths: 20000, assumptions: map[string]bool{},
 		maxSteps: 400000, assertHit: map[int]bool{}, skipHit: map[string]bool{}, loopHit: map[int]bool{}, cloHit: map[int]bool{},
 		freshSliceVars: map[*types.Var]bool{}, escaped: map[*ast.FuncLit]bool{}, uncontracted: map[string]bool{}, pureAxiomDone: map[string]bool{},
-		closureOfVar: map[*types.Var]*ast.FuncLit{}, allLits: map[*ast.FuncLit]bool{}, usedAxioms: map[string]bool{}, intrinsics: map[string]bool{}, cloVerified: map[*ast.FuncLit]bool{}, reassigned: map[types.Object]bool{},
+		closureOfVar: map[*types.Var]*ast.FuncLit{}, allLits: map[*ast.FuncLit]bool{}, usedAxioms: map[string]bool{}, intrinsics: map[string]bool{}, cloVerified: map[*ast.FuncLit]bool{}, reassigned: map[types.Object]bool{}, freshPtrVars: map[*types.Var]bool{},
 	}
 }
 
@@ -426,8 +427,23 @@ func namedOf(t types.Type) *types.Named {
 	return n
 }
 
+// assumeWf adds the well-formedness facts of a slice/map value read from the heap or returned by
+// an uninterpreted function (len >= 0 etc.), once per term and state.
+func (ex *Exec) assumeWf(st *State, v Val) {
+	if st == nil || (v.S.K != KSlice && v.S.K != KMap) || strings.Contains(v.T, "q_") {
+		return
+	}
+	key := "wf:" + v.T
+	if st.pureInst[key] {
+		return
+	}
+	st.pureInst[key] = true
+	st.assume(ex.wf(v))
+}
+
 func (ex *Exec) fieldPath(st *State, x Val, index []int) Val {
 	cur := x
+	defer func() { ex.assumeWf(st, cur) }()
 	for _, i := range index {
 		t := cur.GoT
 		isPtr := false
